@@ -4,5 +4,24 @@
 //@@ enditem
 
 //@@ item src/json_value.rs :: enum JsonValue
-//@@ derives Clone
+//@@ derives Clone PartialEq
 //@@ enditem
+
+// ---- trusted stand-in for #[derive(PartialEq)] on JsonValue (NumberValue's PartialEq is hand-written: Kani unit V) ----
+// derive(PartialEq) on an enum: same variant and equal payloads (payload equality is the payload type's PartialEq).
+pub uninterp spec fn json_eq(a: JsonValue, b: JsonValue) -> bool;
+impl PartialEq for JsonValue {
+    #[verifier::external_body]
+    fn eq(&self, other: &Self) -> (r: bool) ensures r == json_eq(*self, *other) { unimplemented!() }
+}
+impl vstd::std_specs::cmp::PartialEqSpecImpl for JsonValue {
+    open spec fn obeys_eq_spec() -> bool { true }
+    open spec fn eq_spec(&self, other: &Self) -> bool { json_eq(*self, *other) }
+}
+pub broadcast axiom fn axiom_json_eq_bool(a: JsonValue, b: bool)
+    ensures #[trigger] json_eq(a, JsonValue::Boolean(b)) == (a == JsonValue::Boolean(b));
+pub broadcast axiom fn axiom_json_eq_null(a: JsonValue)
+    ensures #[trigger] json_eq(a, JsonValue::Null) == (a == JsonValue::Null);
+pub broadcast axiom fn axiom_json_eq_string(a: JsonValue, s: String)
+    ensures #[trigger] json_eq(a, JsonValue::String(s)) == (a == JsonValue::String(s));
+pub broadcast group group_json_eq { axiom_json_eq_bool, axiom_json_eq_null, axiom_json_eq_string }
